@@ -372,6 +372,16 @@ static void run_seq(void)
 	if (!table_new())
 		return;
 	seq_verify("creation");
+	{
+		/* a node initialised as "deleted" reports so and cannot be removed from a table it is not in */
+		static struct cds_lfht_node dn;
+
+		cds_lfht_node_init_deleted(&dn);
+		VRT_CHECK(cds_lfht_is_node_deleted(&dn), "cds_lfht_node_init_deleted: node not reported deleted");
+		RDL();
+		VRT_CHECK(cds_lfht_del(ht, &dn) < 0, "cds_lfht_del of a node initialised as deleted succeeded");
+		RDU();
+	}
 	nops = S_NKINDS * nkeys + nrs + 1;
 	for (i = 0; i < nops && nallowed < 64; i++) {
 		int k = i / nkeys;
